@@ -11,6 +11,7 @@ import GocoinV.Proofs.C13Digest
 import GocoinV.Proofs.C13Inst
 import GocoinV.Proofs.C13Keys
 import GocoinV.Proofs.C13Own
+import GocoinV.Proofs.C13Inst2
 import GocoinV.Gen.WalletFacts
 namespace GocoinV.Props.C13
 open GocoinV GocoinV.WalletTx GocoinV.WalletSpec
@@ -752,5 +753,29 @@ example (base : Script.Oracles) : ScriptSpec.verifyScript
     (by decide) keysI callsTr clashTr nonzeroI rfl rfl rfl rfl (OwnScript.p2tr 0 krI keyI) addrTr (Or.inl rfl)
 
 end JointInstance
+
+/-! ### JOINT non-vacuity of `send_signatures_verify`: a whole -send run with TWO keys and TWO inputs of different types
+    (P2PKH of key 0 and P2WPKH of key 1; instance of Proofs/C13Inst2.lean) - every hypothesis discharged, kernel-checked -/
+section SendInstance
+open GocoinV.WalletTx.Inst GocoinV.WalletTx.Inst2
+
+example (base : Script.Oracles) : w2.tx.ins.length = b2.spent.length ∧
+    ∀ i uo, (spentOuts b2)[i]? = some uo →
+      ScriptSpec.verifyScript (walletOracles base toySha Ht.hash160 K2.tagged w2.tx (spentOuts b2) i uo.value)
+        (txCtxOf w2.tx i) uo.script (ScriptSpec.Flags.ofMask 0x1FFFFF) = .ok () :=
+  send_signatures_verify Ht base toySha K2 _ c2 true [coinA, coinB] (some send2) none req2 b2 w2 (by decide) hashLenI keysOk2
+    hreq2 hb2 hbal2 hrun2 calls2 clash2 nonzero2 haddr2
+
+/-- … and it is not an empty run: two inputs (a P2PKH and a P2WPKH coin of different keys), two outputs (payment, change) -/
+example : spentOuts b2 = [uoA, uoB] ∧ w2.tx.ins.length = 2 ∧ w2.tx.outs.map (·.value) = [60000, 9000] := by decide +kernel
+
+/-- ownership_is_four_templates observed on that table: the alias scripts of finding F1 are not owned, the own ones are -/
+example : pkscrToKey ks2 (p2shScript kr0.h160) = none ∧ pkscrToKey ks2 (p2pkhScript kr0.segH160) = none ∧
+    pkscrToKey ks2 (p2wpkhScript kr1.segH160) = none ∧ pkscrToKey ks2 (p2pkhScript kr1.h160) = some 1 ∧
+    pkscrToKey ks2 (p2shScript kr1.segH160) = some 1 ∧
+    pkscrToKey (keyTable Ht true K2.pubs) (p2shScript kr1.segH160) = none ∧
+    pkscrToKey (keyTable Ht true K2.pubs) (p2pkhScript (List.replicate 20 0)) = none := by decide +kernel
+
+end SendInstance
 
 end GocoinV.Props.C13
